@@ -1,6 +1,11 @@
-/-! C17 prototype: `falcon.asgi.ws.WebSocket` (unbuffered receive path) and `App._handle_websocket` with the default
-    error handlers, as an executable model. `disc` is the value of `_buffered_receiver.client_disconnected` observed by
-    the operation (constantly `none` when `max_receive_queue = 0`). -/
+/-! C17: `falcon.asgi.ws.WebSocket` and `App._handle_websocket` (with WebSocket middleware, the four default error
+    handlers and an optional custom handler) as an executable model.
+
+    * `disc` is the value of `_buffered_receiver.client_disconnected` (with `client_disconnected_code`) *observed* by an
+      operation: `none` = flag clear, `some c` = flag set with code `c`.  With `max_receive_queue = 0` no pump task exists
+      and the flag is constantly clear; with a queue the pump sets it asynchronously, so every operation takes the observed
+      value as an input and the theorems quantify over all such inputs.
+    * every call of the server's `send` is recorded in `sent` together with whether it returned or raised. -/
 namespace Ws
 
 inductive S where | handshake | accepted | closed
@@ -11,7 +16,7 @@ deriving DecidableEq, Repr
 
 /-- what the app hands to the server's `send` -/
 inductive Ev where
-  | accept (headers : Bool)
+  | accept (headers : Bool) (subprotocol : Bool)
   | send (k : Kind)
   | close (code : Int) (reason : Bool)
 deriving DecidableEq, Repr
@@ -29,14 +34,25 @@ inductive Exc where
   | payloadType                     -- PayloadTypeError
   | invalidCloseCode                -- ValueError('Invalid close code…')
   | valueOther                      -- any other ValueError
-  | osErr                           -- the server's `send` raised OSError (untranslated)
+  | osErr                           -- the server's `send` raised OSError (untranslated, from `close()`)
   | httpError (status : Int)
   | httpStatus (status : Int)
   | pyErr                           -- any other Exception
+  | assertion                       -- AssertionError of `_BufferedReceiver.receive` (pump task is None)
+  | boom                            -- the application's own exception class (may have a custom error handler)
 deriving DecidableEq, Repr
 
 /-- `WebSocketDisconnected(code)`: `self.code = code or 1000` -/
-def wsd (c : Option Int) : Exc := .disconnected (match c with | some c => if c == 0 then 1000 else c | none => 1000)
+def wsdCode (c : Option Int) : Int := match c with | some c => if c == 0 then 1000 else c | none => 1000
+def wsd (c : Option Int) : Exc := .disconnected (wsdCode c)
+
+/-- how the server's `send` fails at the faulty call (`_translate_webserver_error` distinguishes these) -/
+inductive Fault where
+  | os (cause : Option Int)   -- OSError, optionally `raise … from Exception('received <code> (…)')`
+  | ok1000                    -- Exception('… code = 1000 (OK) …')  (websockets library)
+  | subproto                  -- Exception('protocol accepted must be from the list')  (Autobahn)
+  | other                     -- any other exception: not translated
+deriving DecidableEq, Repr
 
 structure W where
   st : S := .handshake
@@ -47,7 +63,10 @@ structure W where
   errCloseCode : Int                -- ws_options.error_close_code
   binMediaOk : Bool                 -- msgpack importable
   sent : List (Ev × Bool) := []     -- every call of `send`, with whether it returned normally
-  failAt : Option Nat               -- index of the `send` call that raises OSError
+  failAt : Option Nat               -- index of the `send` call that raises
+  fault : Fault := .os none
+  buffered : Bool := false          -- max_receive_queue > 0
+  pumpStopped : Bool := false       -- `_buffered_receiver.stop()` ran after the pump had been started
   inbox : List InEv
 deriving Repr
 
@@ -56,17 +75,26 @@ def W.asgiSend (w : W) (e : Ev) : W × Bool :=
   let fails := w.failAt == some w.sent.length
   ({ w with sent := w.sent ++ [(e, !fails)] }, !fails)
 
-def W.isClosed (w : W) (disc : Option (Option Int)) : Bool := w.st == .closed || disc.isSome
+def W.isClosed (w : W) (disc : Option Int) : Bool := w.st == .closed || disc.isSome
+
+/-- the raw exception of the faulty `send` as seen by a caller that does not translate it (`close()`) -/
+def Fault.raw : Fault → Exc
+  | .os _ => .osErr
+  | _ => .pyErr
 
 /-- `WebSocket._send` -/
-def W.send_ (w : W) (disc : Option (Option Int)) (e : Ev) : W × Option Exc :=
+def W.send_ (w : W) (disc : Option Int) (e : Ev) : W × Option Exc :=
   let w := match disc with
-    | some code => { w with st := .closed, closeCode := code }
+    | some code => { w with st := .closed, closeCode := some code }
     | none => w
   if w.st == .closed then (w, some (wsd w.closeCode)) else
   let (w, ok) := w.asgiSend e
   if ok then (w, none)
-  else ({ w with st := .closed, closeCode := some 1000 }, some (wsd none))   -- OSError → WebSocketDisconnected(None), whose `.code` is 1000
+  else match w.fault with     -- `_translate_webserver_error`
+    | .os cause => ({ w with st := .closed, closeCode := some (wsdCode cause) }, some (wsd cause))
+    | .ok1000 => ({ w with st := .closed, closeCode := some 1000 }, some (wsd (some 1000)))
+    | .subproto => ({ w with st := .closed }, some .valueOther)
+    | .other => (w, some .pyErr)
 
 def W.requireAccepted (w : W) : Option Exc :=
   match w.st with
@@ -74,11 +102,13 @@ def W.requireAccepted (w : W) : Option Exc :=
   | .closed => some (wsd w.closeCode)
   | .accepted => none
 
-def W.accept (w : W) (disc : Option (Option Int)) (headers : Bool) : W × Option Exc :=
+/-- `accept(subprotocol, headers)`; `badSub` = the subprotocol argument is not a `str` -/
+def W.accept (w : W) (disc : Option Int) (headers : Bool) (sub : Bool) (badSub : Bool) : W × Option Exc :=
   if w.isClosed disc then (w, some .notAllowed) else
   if w.st != .handshake then (w, some .notAllowed) else
+  if badSub then (w, some .valueOther) else
   if headers && !w.supHeaders then (w, some .notAllowed) else
-  match w.send_ disc (.accept headers) with
+  match w.send_ disc (.accept headers sub) with
   | (w, none) => ({ w with st := .accepted }, none)
   | r => r
 
@@ -86,7 +116,12 @@ def W.accept (w : W) (disc : Option (Option Int)) (headers : Bool) : W × Option
 inductive CodeArg where | none | int (c : Int) | notInt
 deriving DecidableEq, Repr
 
-def W.close (w : W) (disc : Option (Option Int)) (arg : CodeArg) : W × Option Exc :=
+/-- `_buffered_receiver.stop()`: a no-op unless the pump task exists (it is created by a successful `accept()`) -/
+def W.stopPump (w : W) : W := if w.buffered && w.st == .accepted then { w with pumpStopped := true } else w
+
+/-- `close(code, reason)`: `_buffered_receiver.stop()` first, then validation, then the early return, then the event -/
+def W.close (w : W) (disc : Option Int) (arg : CodeArg) (reason : Bool) : W × Option Exc :=
+  let w := w.stopPump
   match arg with
   | .notInt => (w, some .valueOther)
   | .int c =>
@@ -97,15 +132,16 @@ def W.close (w : W) (disc : Option (Option Int)) (arg : CodeArg) : W × Option E
 where
   go (w : W) (code : Int) : W × Option Exc :=
     if w.isClosed disc then (w, none) else
-    let (w, ok) := w.asgiSend (.close code (w.reasonCodes.contains code && w.supReason))
-    if ok then ({ w with st := .closed, closeCode := some code }, none) else (w, some .osErr)
+    let (w, ok) := w.asgiSend (.close code ((reason || w.reasonCodes.contains code) && w.supReason))
+    if ok then ({ w with st := .closed, closeCode := some code }, none) else (w, some w.fault.raw)
 
-def W.sendMsg (w : W) (disc : Option (Option Int)) (k : Kind) : W × Option Exc :=
+def W.sendMsg (w : W) (disc : Option Int) (k : Kind) : W × Option Exc :=
   match w.requireAccepted with
   | some e => (w, some e)
   | none => w.send_ disc (.send k)
 
-/-- `WebSocket._receive` (unbuffered): `none` inbox = the server's `receive` raised -/
+/-- `WebSocket._receive`: the next event of the client script, directly (queue 0) or through the buffered receiver, which
+    hands the same events out in the same order (C18); `[]` = the server's `receive` raised -/
 def W.receive_ (w : W) : W × Except Exc InEv :=
   match w.inbox with
   | [] => (w, .error .pyErr)
@@ -121,6 +157,7 @@ def W.recv (w : W) (k : RecvKind) : W × Option Exc :=
   match w.requireAccepted with
   | some e => (w, some e)
   | none =>
+    if w.pumpStopped then (w, some .assertion) else     -- `assert self._pump_task is not None`
     match w.receive_ with
     | (w, .error e) => (w, some e)
     | (w, .ok ev) =>
@@ -133,58 +170,113 @@ def W.recv (w : W) (k : RecvKind) : W × Option Exc :=
       | .media, .bytes => (w, if w.binMediaOk then none else some .pyErr)
       | .media, _ => (w, some .payloadType)
 
-/-- one step of a responder script -/
+/-- one step of a responder / middleware / error-handler script -/
 inductive Op where
-  | accept (headers : Bool) | close (arg : CodeArg) | send (k : Kind) | recv (k : RecvKind)
-  | raiseHttp (status : Int) | raiseStatus (status : Int) | raiseExc
+  | accept (headers : Bool) (sub : Bool) (badSub : Bool) | close (arg : CodeArg) (reason : Bool)
+  | send (k : Kind) | recv (k : RecvKind)
+  | raiseHttp (status : Int) | raiseStatus (status : Int) | raiseExc | raiseBoom
 deriving DecidableEq, Repr
 
-def W.op (w : W) : Op → W × Option Exc
-  | .accept h => w.accept none h
-  | .close a => w.close none a
-  | .send k => w.sendMsg none k
+def W.op (w : W) (disc : Option Int) : Op → W × Option Exc
+  | .accept h s b => w.accept disc h s b
+  | .close a r => w.close disc a r
+  | .send k => w.sendMsg disc k
   | .recv k => w.recv k
   | .raiseHttp s => (w, some (.httpError s))
   | .raiseStatus s => (w, some (.httpStatus s))
   | .raiseExc => (w, some .pyErr)
+  | .raiseBoom => (w, some .boom)
 
 /-- exceptions the scripted responder catches when its `catch` flag is set -/
 def Exc.catchable : Exc → Bool
   | .notAllowed | .disconnected _ | .payloadType | .invalidCloseCode | .valueOther => true
   | _ => false
 
-/-- run the responder; returns the per-op log and the exception that escaped it, if any -/
-def runScript (w : W) : List (Op × Bool) → List (Option Exc) → W × List (Option Exc) × Option Exc
-  | [], log => (w, log, none)
-  | (o, catches) :: rest, log =>
-    match w.op o with
-    | (w, none) => runScript w rest (log ++ [none])
-    | (w, some e) => if catches && e.catchable then runScript w rest (log ++ [some e]) else (w, log ++ [some e], some e)
+/-- what a scripted step does with an exception of its operation: let it propagate, catch the documented errors
+    (`except (OperationNotAllowed, WebSocketDisconnected, PayloadTypeError, ValueError)`), or catch everything (`except Exception`) -/
+inductive Catch where | none | documented | all
+deriving DecidableEq, Repr
 
-/-- `_ws_cleanup_on_error` -/
-def cleanup (w : W) : W × Option Exc :=
-  match w.close none (.int w.errCloseCode) with
+def Catch.catches : Catch → Exc → Bool
+  | .none, _ => false
+  | .documented, e => e.catchable
+  | .all, _ => true
+
+/-- a scripted step: the operation, how the script treats its exception (catch and continue, or propagate), and the
+    disconnect flag the operation observes -/
+abbrev Step := Op × Catch × Option Int
+
+/-- run a script; returns the per-op log and the exception that escaped it, if any -/
+def runScript (w : W) : List Step → List (Option Exc) → W × List (Option Exc) × Option Exc
+  | [], log => (w, log, none)
+  | (o, catches, d) :: rest, log =>
+    match w.op d o with
+    | (w, none) => runScript w rest (log ++ [none])
+    | (w, some e) => if catches.catches e then runScript w rest (log ++ [some e]) else (w, log ++ [some e], some e)
+
+/-- `_ws_cleanup_on_error`; `fd` = the flag value frozen by the `stop()` of the first `close()` after the responder -/
+def cleanup (w : W) (fd : Option Int) : W × Option Exc :=
+  match w.close fd (.int w.errCloseCode) false with
   | (w, none) => (w, none)
-  | (w, some .invalidCloseCode) => w.close none (.int 3011)
+  | (w, some .invalidCloseCode) => w.close fd (.int 3011) false
   | (w, some e) => (w, some e)
 
-/-- `_handle_exception` with the default handlers: the exception that escapes to the server, if any -/
-def handleException (w : W) : Exc → W × Option Exc
-  | .httpError s => w.close none (.int (s + 3000))
-  | .httpStatus s => w.close none (.int (s + 3000))
-  | _ => cleanup w       -- WebSocketDisconnected and every other Exception
+/-- what the application configured -/
+structure Cfg where
+  custom : Option (List Step) := none    -- add_error_handler(Boom, h): the script `h` runs on `ws`
+  fd : Option Int := none               -- disconnect flag observed by the framework's own `close()` calls
+
+/-- `_handle_exception`: the exception that escapes to the server, if any, and the custom handler's op log -/
+def handleException (c : Cfg) (w : W) : Exc → W × List (Option Exc) × Option Exc
+  | .httpError s => let (w, e) := w.close c.fd (.int (s + 3000)) false; (w, [], e)
+  | .httpStatus s => let (w, e) := w.close c.fd (.int (s + 3000)) false; (w, [], e)
+  | .boom =>
+    match c.custom with
+    | none => let (w, e) := cleanup w c.fd; (w, [], e)
+    | some hs =>
+      match runScript w hs [] with
+      | (w, hlog, none) => (w, hlog, none)
+      | (w, hlog, some (.httpError s)) => let (w, e) := w.close c.fd (.int (s + 3000)) false; (w, hlog, e)
+      | (w, hlog, some (.httpStatus s)) => let (w, e) := w.close c.fd (.int (s + 3000)) false; (w, hlog, e)
+      | (w, hlog, some e) => (w, hlog, some e)
+  | _ => let (w, e) := cleanup w c.fd; (w, [], e)       -- WebSocketDisconnected and every other Exception
+
+/-- result of a session: final object, responder/middleware log, error-handler log, escaped exception -/
+structure Res where
+  w : W
+  log : List (Option Exc)
+  hlog : List (Option Exc) := []
+  esc : Option Exc
 
 /-- `_handle_websocket` after the connect event, for a routed responder script (`none` = no route: 404) -/
-def handle (w : W) (script : Option (List (Op × Bool))) : W × List (Option Exc) × Option Exc :=
+def handle (c : Cfg) (w : W) (script : Option (List Step)) : Res :=
   match script with
-  | none => let (w, e) := handleException w (.httpError 404); (w, [], e)
+  | none => let (w, hl, e) := handleException c w (.httpError 404); ⟨w, [], hl, e⟩
   | some sc =>
     match runScript w sc [] with
     | (w, log, none) =>
-      match w.close none .none with
-      | (w, none) => (w, log, none)
-      | (w, some e) => let (w, e') := handleException w e; (w, log, e')
-    | (w, log, some e) => let (w, e') := handleException w e; (w, log, e')
+      match w.close c.fd .none false with
+      | (w, none) => ⟨w, log, [], none⟩
+      | (w, some e) => let (w, hl, e') := handleException c w e; ⟨w, log, hl, e'⟩
+    | (w, log, some e) => let (w, hl, e') := handleException c w e; ⟨w, log, hl, e'⟩
+
+/-- where the router sends the request -/
+inductive Route where
+  | unrouted                      -- no route: the default responder raises HTTPRouteNotFound (404)
+  | noResponder                   -- the resource has no `on_websocket`: HTTPMethodNotAllowed (405)
+  | responder (sc : List Step)
+
+/-- `_handle_websocket` with `process_request_ws` (before routing) and `process_resource_ws` (after routing, only when a
+    resource was found) middleware scripts.  The synthetic raise of the default responders is not part of the log. -/
+def handleMw (c : Cfg) (w : W) (mwReq mwRes : List Step) (r : Route) : Res :=
+  match r with
+  | .responder sc => handle c w (some (mwReq ++ mwRes ++ sc))
+  | .unrouted =>
+    let r := handle c w (some (mwReq ++ [(.raiseHttp 404, .none, none)]))
+    if r.log.length > mwReq.length then { r with log := r.log.dropLast } else r
+  | .noResponder =>
+    let r := handle c w (some (mwReq ++ mwRes ++ [(.raiseHttp 405, .none, none)]))
+    if r.log.length > mwReq.length + mwRes.length then { r with log := r.log.dropLast } else r
 
 /-- the first event is not `websocket.connect` -/
 def rejectFirst (w : W) : W := (w.asgiSend (.close 1011 w.supReason)).1
